@@ -342,7 +342,7 @@ pub fn run(ctx: &Ctx) -> i32 {
             .map(|m| (0..4).map(|var| mk_input(gen::subset(&univ, m as u64).into_iter().enumerate().map(|(i, k)| (k, vals[(i + var + m) % 4])).collect())).collect())
             .collect();
         let mut g = 0usize;
-        let kmax_full = if quick { 4 } else { 3 };
+        let kmax_full = if quick { 5 } else { 3 };
         for k in 1..=kmax_full {
             let total = nsub.pow(k as u32);
             for t in 0..total {
@@ -377,7 +377,7 @@ pub fn run(ctx: &Ctx) -> i32 {
         let mut rng = Rng::new(ctx.seed, 0xC05 + shard as u64);
         let nsamp = ctx.tier.pick(20_000, 400_000) / n;
         for t in 0..nsamp {
-            let k = kmax_full + 1 + rng.usize(if quick { 2 } else { 4 });
+            let k = kmax_full + 1 + rng.usize(if quick { 3 } else { 4 });
             let mut ins: Vec<(&Input, Kind)> = vec![];
             for _ in 0..k {
                 ins.push((&inputs[rng.usize(nsub)][rng.usize(4)], *rng.pick(&KINDS)));
@@ -430,7 +430,7 @@ pub fn run(ctx: &Ctx) -> i32 {
         ev,
         Spec {
             level: "exploration",
-            rule: "one evaluation = one (tuple of input streams, operation) run through raw::/map::/set::OpBuilder (add, push, extend, from_iter in rotation) and compared with the set-theoretic definition: emitted keys, ascending order, exactly-once, and per key the sorted multiset of (stream index, value) entries (difference: only (0, v0)); inputs: ALL k-tuples of subsets of a 4-string universe for k<=4 (quick) / 6-string universe for k<=3 (thorough), sampled k up to 6/8, stream kinds rotated over {whole FST, range() stream, range cutting an extra key, search(AlwaysMatch), search(Complement(Str)) cutting an extra key, user Streamer over a Vec}, the same FST twice, values chosen so equal keys carry equal and differing values, random maps up to 10^3 (quick) / 10^5 (thorough) keys; plus is_disjoint/is_subset/is_superset on all ordered pairs of subsets with FST, range and user-stream arguments; non-trivial = every (tuple, op); distinct = by construction for the exhaustive part, by fingerprint for the sampled part",
+            rule: "one evaluation = one (tuple of input streams, operation) run through raw::/map::/set::OpBuilder (add, push, extend, from_iter in rotation) and compared with the set-theoretic definition: emitted keys, ascending order, exactly-once, and per key the sorted multiset of (stream index, value) entries (difference: only (0, v0)); inputs: ALL k-tuples of subsets of a 4-string universe for k<=5 (quick) / 6-string universe for k<=3 (thorough), sampled k up to 6/8, stream kinds rotated over {whole FST, range() stream, range cutting an extra key, search(AlwaysMatch), search(Complement(Str)) cutting an extra key, user Streamer over a Vec}, the same FST twice, values chosen so equal keys carry equal and differing values, random maps up to 10^3 (quick) / 10^5 (thorough) keys; plus is_disjoint/is_subset/is_superset on all ordered pairs of subsets with FST, range and user-stream arguments; non-trivial = every (tuple, op); distinct = by construction for the exhaustive part, by fingerprint for the sampled part",
             assumptions: vec!["order among IndexedValue entries of one key is unspecified (heap order) and therefore compared as a sorted multiset".into(), "zero-stream difference/intersection are outside the statement and not judged".into()],
             floors: vec![
                 ("cov:has-empty-stream", 100),
